@@ -27,7 +27,10 @@ use std::cell::UnsafeCell;
 use std::collections::VecDeque;
 use std::fmt;
 use std::task::Waker;
+#[cfg(not(excsn_fibre_verif))]
 use std::time::Instant;
+#[cfg(excsn_fibre_verif)]
+use fibre_verif_rt::time::Instant;
 
 use crate::internal::sync::{
   fence, thread, Arc, AtomicBool, AtomicU8, AtomicUsize, Ordering, Thread,
